@@ -5,17 +5,19 @@ Mirrors `call/ser.rs`, `call/de.rs`, `reply.rs`, the `ReplyError` derive (`zlink
 `varlink_service::Error` / `Method` and the three-way untagged `ReplyMsg` of `read_connection.rs`
 (`receive_reply`). serde / serde_derive semantics are **modelled** for exactly this family (validated
 by the correspondence corpus, see DESIGN §3): unknown members are ignored; a duplicate of a known member
-is an error; an absent or `null` optional member is `None`; a unit variant accepts absent or `null`
-content only; a struct variant needs its content; a sequence is accepted positionally where a struct is
-expected; a borrowed `&str` field rejects strings written with escapes. -/
+is an error; an absent or `null` optional member is `None`; a field-less error variant accepts absent, `null` or object content
+(the derive decodes it as a newtype variant around an optional empty struct); a struct variant needs an object as content; a sequence is accepted positionally where a plain
+struct is expected (e.g. as the `parameters` of a success reply); a borrowed `&str` field rejects strings written with escapes. -/
 namespace Env
 
 /-- JSON tree with member order and duplicates preserved; `str` remembers whether the source text
-    used escapes (then it cannot be borrowed). Numbers keep their source text. -/
+    used escapes (then it cannot be borrowed). Integer numbers are carried as `Int` (the conversion from and
+    to decimal text is the driver's / `itoa`'s / serde_json's business). -/
 inductive J
   | null
   | bool (b : Bool)
-  | num (text : String)
+  | int (i : Int)              -- a number written as an integer
+  | num (text : String)        -- any other number (fraction / exponent), kept as text
   | str (s : String) (escaped : Bool)
   | arr (items : List J)
   | obj (members : List (String × J))
@@ -31,7 +33,7 @@ inductive FT
   | bool
   | any            -- serde_json::Value
   | opt (t : FT)
-deriving Repr, DecidableEq
+deriving Repr, DecidableEq, Inhabited
 
 /-- decoded field values -/
 inductive V
@@ -42,20 +44,10 @@ inductive V
   | none
   | some (v : V)
 
-def isDigit (c : Char) : Bool := '0' ≤ c && c ≤ '9'
-
-/-- integer text as serde_json reads it: optional `-`, digits, no fraction or exponent -/
-def parseInt (t : String) : Option Int :=
-  match t.toList with
-  | '-' :: ds => if ds != [] && ds.all isDigit then some (-(Int.ofNat (String.ofList ds).toNat!)) else none
-  | ds => if ds != [] && ds.all isDigit then some (Int.ofNat (String.ofList ds).toNat!) else none
-
 def decodeF : FT → J → Option V
   | .str, .str s _ => some (.str s)
   | .bstr, .str s false => some (.str s)
-  | .int lo hi, .num t => match parseInt t with
-    | some i => if lo ≤ i && i ≤ hi then some (.int i) else none
-    | none => none
+  | .int lo hi, .int i => if lo ≤ i && i ≤ hi then some (.int i) else none
   | .bool, .bool b => some (.bool b)
   | .any, j => some (.any j)
   | .opt _, .null => some .none
@@ -80,11 +72,18 @@ def count (k : String) (ms : Members) : Nat := (ms.filter (·.1 = k)).length
 def hasKey (k : String) (ms : Members) : Bool := ms.any (·.1 = k)
 
 /-- serde-derived struct visitor over an object's members -/
+def decodeEach (ms : Members) : List Field → Option (List V)
+  | [] => some []
+  | f :: fs =>
+    let v? := match lookup f.name ms with
+      | some j => decodeF f.ty j
+      | none => if f.ty.optional then some V.none else none
+    match v?, decodeEach ms fs with
+    | some v, some vs => some (v :: vs)
+    | _, _ => none
+
 def decodeFields (fs : List Field) (ms : Members) : Option (List V) :=
-  if fs.any (fun f => count f.name ms > 1) then none else
-  fs.mapM fun f => match lookup f.name ms with
-    | some j => decodeF f.ty j
-    | none => if f.ty.optional then some .none else none
+  if fs.any (fun f => count f.name ms > 1) then none else decodeEach ms fs
 
 def decodeSeq : List Field → List J → Option (List V)
   | [], [] => some []
@@ -102,6 +101,9 @@ def decodeStruct (fs : List Field) : J → Option (List V)
 structure Variant where
   name : String
   fields : Option (List Field)
+  /-- a field-less variant decoded through `Option<NoParams>` (the `ReplyError` derive and
+      `varlink_service::Method::GetInfo`): `{}` is accepted too; a plain serde unit variant is not -/
+  lenient : Bool := false
 deriving Repr, DecidableEq
 
 def findVariant (vs : List Variant) (n : String) : Option (Nat × Variant) :=
@@ -115,10 +117,14 @@ def decodeAdjM (tag content : String) (vs : List Variant) (ms : Members) : Optio
     match findVariant vs n with
     | some (i, v) =>
       match v.fields, lookup content ms with
+      -- field-less variant (`Option<NoParams>` content): absent, `null`, any object, or `[]`
       | none, none => some (i, [])
       | none, some .null => some (i, [])
+      | none, some (.obj _) => if v.lenient then some (i, []) else none
+      | none, some (.arr []) => if v.lenient then some (i, []) else none
       | none, some _ => none
-      | some fs, some c => (decodeStruct fs c).map fun xs => (i, xs)
+      | some fs, some (.obj cm) => (decodeFields fs cm).map fun xs => (i, xs)
+      | some _, some _ => none
       | some _, none => none
     | none => none
   | _ => none
@@ -212,7 +218,7 @@ def decodeCall (M : List Variant) : J → Option CallV
 
 def encodeV : V → J
   | .str s => .str s false
-  | .int i => .num (toString i)
+  | .int i => .int i
   | .bool b => .bool b
   | .any j => j
   | .none => .null
